@@ -89,6 +89,33 @@ def t_():
     return Table("t")
 
 
+def _part(r, attr, idx=None, kinds=None):
+    """an object the receiver already holds (None if it has none of that kind)"""
+    v = (odict(r) or {}).get(attr)
+    if v is None:
+        return None
+    if idx is not None:
+        if not v:
+            return None
+        v = v[idx]
+    if kinds is not None and not isinstance(v, kinds):
+        return None
+    return v
+
+
+def _elsewhere():
+    """statements of every kind started through every dialect class (none of them related to the receiver)"""
+    out = []
+    for QQ in sorted(fp.QCLS.values(), key=lambda c: c.__name__ == "MySQLQuery"):  # (the class with other quote characters last)
+        z = QQ.Table("zz_else")
+        out += [QQ.from_(z).select(z.a), QQ.into(z).insert(1), QQ.update(z).set(z.a, 1), QQ.create_table("zz_else").columns("a"),
+                QQ.drop_table("zz_else"), QQ.with_(QQ.from_(z).select(z.a), "zz_c").from_(z).select(z.a), z.select(z.a), z.update().set(z.a, 2),
+                z.insert(3)]
+    for o in out:
+        str(o)
+    return out
+
+
 def sub_():
     v = Table("v")
     return A(Query.from_(v).select(v.id))
@@ -157,6 +184,19 @@ QB_OPS = {
     "groupby:dup": lambda r: r.groupby("tenant", "region", "tenant", "id", "zone", "region"),
     "use_index": lambda r: r.use_index("ui"),
     "with_": lambda r: r.with_(sub_(), "c2"),
+    # the receiver's own parts handed to it again (the user kept the object in a variable): the very same subquery listed in FROM /
+    # joined a second time, a CTE name the receiver already defines, the select / where / group / order terms it already holds
+    "from_:again": lambda r: r.from_(_part(r, "_from", 0) or sub_()),
+    "join:again": lambda r: r.join(_part(r, "_from", 0, kinds=(Q.QueryBuilder, Q._SetOperation)) or sub_()).cross(),
+    "with_:same_name": lambda r: r.with_(sub_(), getattr(_part(r, "_with", 0), "name", None) or "c2"),
+    "select:again": lambda r: r.select(_part(r, "_selects", 0) or t_().again),
+    "where:again": lambda r: r.where(_part(r, "_wheres") or (t_().again == 1)),
+    "having:again": lambda r: r.having(_part(r, "_havings") or (FN.Sum(t_().again) > 1)),
+    "groupby:again": lambda r: r.groupby(_part(r, "_groupbys", 0) or t_().again),
+    "orderby:again": lambda r: r.orderby((_part(r, "_orderbys", 0) or (t_().again, None))[0]),
+    "set:again": lambda r: r.set(*((_part(r, "_updates", 0) or (t_().again, 1)))),
+    # unrelated statements created elsewhere - through every dialect class and every factory - between two calls
+    "elsewhere": lambda r: (_elsewhere(), r.limit(9))[1],
     "into": lambda r: r.into(A(Table("x"))),
     "columns": lambda r: r.columns("c", "d"),
     # table-less Field objects (instead of names) handed to calls that bind columns to the statement's table
@@ -206,7 +246,9 @@ PG_OPS = {
     "returning:lit": lambda r: r.returning(1),
     "distinct_on": lambda r: r.distinct_on("a", A(t_().b)),
 }
-MY_OPS = {"modifier": lambda r: r.modifier("SQL_BIG_RESULT")}
+MY_OPS = {"modifier": lambda r: r.modifier("SQL_BIG_RESULT"),
+          # (several words in one argument)
+          "modifier:words": lambda r: r.modifier("HIGH_PRIORITY  SQL_CALC_FOUND_ROWS")}
 MS_OPS = {"top": lambda r: r.top(5), "fetch_next": lambda r: r.fetch_next(3)}
 
 SETOP_OPS = {
@@ -243,13 +285,15 @@ CREATE_OPS = {
     "unique:dup": lambda r: r.unique("tenant", "region", "tenant", "id", "k1", "region"),
     "primary_key:dup": lambda r: r.primary_key("tenant", "region", "tenant", "id", "zone", "region"),
     "columns:dup": lambda r: r.columns("tenant", "region", "tenant", "id", "zone", "region"),
+    "elsewhere": lambda r: (_elsewhere(), r.if_not_exists())[1],
     "as_select": lambda r: r.as_select(sub_()),
     # the SELECT built through another dialect's class than the CREATE
     "as_select:other_cls": lambda r: r.as_select(A(fp.QCLS["mysql"].from_(Table("v")).select("id"))),
     "as_select:pg_cls": lambda r: r.as_select(A(fp.QCLS["postgresql"].from_(Table("v")).select("id").where(Table("v").id == 1))),
     "if_not_exists": lambda r: r.if_not_exists(),
 }
-DROP_OPS = {"drop_table": lambda r: r.drop_table("n"), "if_exists": lambda r: r.if_exists()}
+DROP_OPS = {"drop_table": lambda r: r.drop_table("n"), "if_exists": lambda r: r.if_exists(),
+            "elsewhere": lambda r: (_elsewhere(), r.if_exists())[1]}
 LOAD_OPS = {"load": lambda r: r.load("/g.csv"), "into": lambda r: r.into(A(Table("n")))}
 TABLE_OPS = {
     "as_": lambda r: r.as_("ta"),
